@@ -283,6 +283,49 @@ pub fn main(args: &util::Args) {
         }
         let _ = std::fs::remove_dir_all(&dir);
     }
+    // a local binder spelled like a package-level name (harness/src/namecat.rs): every binder kind x use
+    // position x kind of package-level name x declaring file; each program (`…:a`) with its twin (`…:b`)
+    // whose binder has a fresh name, the output both print by construction, and the lowering oracle.
+    // A program that is rejected although its twin is accepted is split into its cells (one program each),
+    // so that the cells that are still accepted are compared for behaviour
+    {
+        let dir = util::scratch_dir("c01n");
+        let mut emit = |case: &crate::namecat::NameCase, out: &mut String| -> (bool, bool) {
+            let all = |files: &[(String, String)]| files.iter().map(|(r, t)| format!("//// file: {}\n{}", r, t)).collect::<Vec<_>>().join("");
+            let mut ok = [false, false];
+            for (k, (suffix, files)) in [("a", &case.files), ("b", &case.twin)].into_iter().enumerate() {
+                let id = format!("{}:{}", case.id, suffix);
+                let entry = crate::namecat::write_project(&dir.join(suffix), files);
+                let text = all(files);
+                match util::compile_path(&entry, &files[0].1) {
+                    Outcome::Ok(c) => {
+                        ok[k] = true;
+                        writeln!(out, "{}\tEXPECT\tout\t{}", id, crate::sexp::esc_line(&case.expected)).unwrap();
+                        writeln!(out, "{}\tSRC\t{}", id, crate::sexp::esc_line(&text)).unwrap();
+                        dump_src(&id, &entry, &files[0].1, out);
+                        dump_case(&id, &c, out);
+                    }
+                    Outcome::Err(stage, msgs) => writeln!(out, "{}\tREJECT\t{}\t{}\t{}", id, stage, crate::sexp::esc_line(&msgs.join(" | ")), crate::sexp::esc_line(&text)).unwrap(),
+                    Outcome::Panic(m) => writeln!(out, "{}\tPANIC\t{}\t{}", id, crate::sexp::esc_line(&m), crate::sexp::esc_line(&text)).unwrap(),
+                }
+            }
+            let cells = case.cells.iter().map(|(u, b)| format!("{}/{}", u, b)).collect::<Vec<_>>().join(" ");
+            match crate::namecat::lowering_alpha(case, &dir) {
+                Ok(n) => writeln!(out, "{}:a\tALPHA\tok\t{}\t{}\t{}\t{}", case.id, n, case.name, case.fresh, cells).unwrap(),
+                Err(e) => writeln!(out, "{}:a\tALPHA\tdiff\t{}\t{}\t{}\t{}", case.id, crate::sexp::esc_line(&e), case.name, case.fresh, cells).unwrap(),
+            }
+            (ok[0], ok[1])
+        };
+        for case in crate::namecat::catalogue(args.seed, args.tier == "thorough") {
+            let (a_ok, b_ok) = emit(&case, &mut out);
+            if !a_ok && b_ok {
+                for single in case.split() {
+                    emit(&single, &mut out);
+                }
+            }
+        }
+        let _ = std::fs::remove_dir_all(&dir);
+    }
     // generated programs (G-prog)
     let total = args.n.unwrap_or(if args.tier == "thorough" { 3000 } else { 300 });
     let dir = util::scratch_dir("c01");
